@@ -51,6 +51,7 @@ func VerifP_C01C02C04C05C12_Hover(i int) {
 			verifAssert(hd.Content.Value != "", "C12:content-nonempty")
 			verifAssert(verifRealRange(vf, hd.Range), "C02:hover-range"+verifCursorTag())
 			verifAssert(verifAnd(hd.Range.Start.Byte <= pos.Byte, pos.Byte <= hd.Range.End.Byte), "C12:range-contains-cursor"+verifCursorTag())
+			verifAssert(verifOr(pos.Byte < hd.Range.End.Byte, hd.Range.Start.Byte == hd.Range.End.Byte), "C12:range-contains-cursor-half-open"+verifCursorTag())
 		}
 	})
 	verifNoWrites("C04:hover-writes", true)
